@@ -110,6 +110,9 @@ pub struct Exec {
     l0_on: f32,
     l0_off: f32,
     v_prev: f32,
+    /// the value most recently read, after the last tick *or* the last event: C01's monotonicity holds "between events",
+    /// so an implementation may move value() at a set_input call (C03 bounds that move by the sustain change)
+    v_seen: f32,
     // progress of the current timed phase
     k: u64,
     prog: f64,
@@ -235,11 +238,12 @@ impl Exec {
 
         // ---------------- C01: range and shape
         let vp = self.v_prev;
+        let vs = self.v_seen;
         ctx.check(1, "range", (0.0..=1.0).contains(&v), || format!("value {:e} outside [0,1] in {:?}", v, st1));
         let s = self.par[2];
         match st1 {
             State::Attack => {
-                ctx.check(1, "attack_monotone", v >= vp, || format!("attack went down: {:e} -> {:e}", vp, v));
+                ctx.check(1, "attack_monotone", v >= vs, || format!("attack went down: {:e} -> {:e}", vs, v));
             }
             State::Decay => {
                 if st0 == State::Attack {
@@ -247,7 +251,7 @@ impl Exec {
                         format!("attack ended without ever outputting exactly 1.0 (last attack tick {:e}, next tick {:e})", vp, v)
                     });
                 } else if !self.s_changed {
-                    ctx.check(1, "decay_monotone", v <= vp, || format!("decay went up: {:e} -> {:e}", vp, v));
+                    ctx.check(1, "decay_monotone", v <= vs, || format!("decay went up: {:e} -> {:e}", vs, v));
                 }
                 if let Some(s) = s {
                     ctx.check(1, "decay_above_sustain", v >= s, || format!("decay value {:e} below sustain {:e}", v, s));
@@ -259,7 +263,7 @@ impl Exec {
                 }
             }
             State::Release => {
-                ctx.check(1, "release_monotone", v <= vp, || format!("release went up: {:e} -> {:e}", vp, v));
+                ctx.check(1, "release_monotone", v <= vs, || format!("release went up: {:e} -> {:e}", vs, v));
             }
             State::AtRest => {
                 ctx.check(1, "rest_is_zero", v == 0.0, || format!("at rest outputs {:e}", v));
@@ -304,6 +308,7 @@ impl Exec {
 
         self.st = st1;
         self.v_prev = v;
+        self.v_seen = v;
         self.ds = 0.0;
         self.s_changed = false;
     }
@@ -357,6 +362,7 @@ impl Engine for AdsrEngine {
             l0_on: 0.0,
             l0_off: 0.0,
             v_prev: 0.0,
+            v_seen: 0.0,
             k: 0,
             prog: 0.0,
             low: 0.0,
@@ -463,6 +469,7 @@ impl Engine for AdsrEngine {
                 }
                 ex.st = st1;
                 ex.v_prev = v;
+                ex.v_seen = v;
                 ex.ds = 0.0;
                 ex.s_changed = false;
                 ctx.transition(sidx(st0) | 6 << 3 | sidx(st1) << 6 | ((*n).min(63)) << 13);
@@ -539,6 +546,7 @@ impl Engine for AdsrEngine {
                     ex.reset_phase();
                 }
                 ex.st = st1;
+                ex.v_seen = ex.a.value();
             }
             Ev::Set(which, bits) => {
                 let x = f32::from_bits(*bits);
@@ -592,6 +600,7 @@ impl Engine for AdsrEngine {
                 ex.par[w] = new;
                 ctx.transition(sidx(st0) | (3 + w as u32) << 3 | sidx(st1) << 6 | (bits0 >> 20) << 9);
                 ex.st = st1;
+                ex.v_seen = ex.a.value();
             }
             Ev::Restart => {
                 ctx.fault(F_RESTART);
@@ -618,6 +627,7 @@ impl Engine for AdsrEngine {
                 ctx.transition(sidx(ex.st) | 7 << 3 | sidx(st1) << 6 | 1 << 20);
                 ex.st = st1;
                 ex.v_prev = v;
+                ex.v_seen = v;
                 ex.ds = 0.0;
                 ex.s_changed = false;
                 ex.reset_phase();
